@@ -27,3 +27,13 @@ impl<'a> MemoSlot<'a> {
         Some(unsafe { ErasedMemo::from_raw_parts(NonNull::new_unchecked(p as *mut DummyMemo), ty.to_dyn_fn, ty.type_id) })
     }
 }
+
+/// A real one-slot memo table (real `MemoTableTypes` + `MemoTable`, not hung off a `Table` page)
+/// registered for memo type `M`.
+pub(crate) fn standalone<M: Memo>() -> (MemoTableTypes, MemoTable) {
+    let mut types = MemoTableTypes::default();
+    types.set(MemoIngredientIndex::from_usize(0), MemoEntryType::of::<M>());
+    // SAFETY: the table is only ever attached to `types`
+    let memos = unsafe { MemoTable::new(&types) };
+    (types, memos)
+}
